@@ -26,10 +26,11 @@
        the router child's queue — the rest of the state at a window boundary
        does not depend on the schedule), so that the many interleavings of a
        window that end in the same state are followed up once.  The SQLite
-       child's answer to a REQ is
-       taken as given (the same query is put to the same database right before
-       the REQ; the order among equal created_at is SQLite's) and is checked
-       against the relational model of Sql.v by [SqlCheckBase.model_accepts].
+       child's answer to a REQ is taken as given (the harness records what the
+       child itself sent; the order among equal created_at is SQLite's, and a
+       second execution of the same query may break a tie at a limit
+       differently) and is checked against the relational model of Sql.v by
+       [SqlCheckBase.model_accepts].
 
    (a) the oracle: the SYS_ statements as boolean checks over (requests,
        replies).  It never runs [sys_step] / [Merge.merge_step]. *)
@@ -38,8 +39,8 @@ From Moc Require Merge Router Sql SqlSpec SqlCheckBase.
 Open Scope Z_scope.
 
 (** one window: the client message, the id of the COUNT sentinel that followed
-    it, the answer of the database to the REQ's filters right before the REQ
-    ([w_sqerr]: the query failed), the match-everything listing of the cache
+    it, the SQLite child's own answer to the REQ
+    ([w_sqerr]: its query failed), the match-everything listing of the cache
     right after an EVENT, and the messages received up to and including the
     sentinel's reply *)
 Record win := mkWin {
